@@ -32,6 +32,10 @@ TRANSPARENT_VARIANTS = {"Some", "Ok", "Continue"}
 HIGHER_ORDER = re.compile(r"::(map|filter_map|and_then|for_each|flat_map|map_or|map_or_else|unwrap_or_else|or_else|filter|find_map|fold|try_fold|try_for_each|then|map_while|inspect|sort_by_key|sort_by|retain|any|all|find|position)$")
 COMPARE = re.compile(r"cmp::(PartialEq|PartialOrd|Ord|Eq)(<.*>)?>::(eq|ne|lt|le|gt|ge|cmp|partial_cmp|max|min)$"
                      r"|::(contains|contains_key|is_empty|is_some|is_none|is_ok|is_err|starts_with|ends_with|is_zero|is_sign_negative|is_sign_positive|is_nan|eq_ignore_ascii_case|is_char_boundary|is_ascii\w*|is_alphabetic|is_numeric|is_whitespace|is_alphanumeric)$")
+# external constructors whose positional arguments become named fields (dependency code without MIR)
+CONSTRUCTORS = [
+    (re.compile(r"(vlsir::raw|layout21protos|vlsir::utils)::Point::new$"), ["x", "y"]),
+]
 INDEX = re.compile(r"ops::Index(Mut)?<.*>>::index(_mut)?$|::index$|::index_mut$|::get_unchecked(_mut)?$")
 
 
@@ -596,6 +600,14 @@ class Flow:
             cut = min(cut, self._q_operand(fid, args[1], (), acc_idx))
             acc |= {s for s in acc_idx if s[0] != "const"}
             return min(cut, self._q_operand(fid, args[0], (e,) + tuple(rest), acc))
+        for rx, fields in CONSTRUCTORS:
+            if rx.search(name):
+                if rest and rest[0] in fields:
+                    i = fields.index(rest[0])
+                    if i < len(args):
+                        return self._q_operand(fid, args[i], rest[1:], acc)
+                    return cut
+                break
         if name.endswith("::from_residual"):
             # the residual is an error value: it carries no payload data
             if rest:
